@@ -145,6 +145,10 @@ func hostileWorker(args []string) error {
 		o.AllocKiB = (m1.TotalAlloc - m0.TotalAlloc) / 1024
 		b, _ := json.Marshal(o)
 		fmt.Fprintf(of, "DONE %s\n", b)
+		if o.AllocKiB > 256<<10 {
+			// the address-space cap is meant for one input, not for the garbage of the inputs before it
+			debug.FreeOSMemory()
+		}
 	}
 	return sc.Err()
 }
@@ -501,6 +505,11 @@ func hrun(args []string) error {
 }
 
 // runCases executes the cases of a file in isolated worker processes and returns one outcome per case.
+// casesASGiB is the address-space cap handed to the isolated workers. The library's documented ceiling is 2 GiB per buffer
+// (12 GiB leaves room for a few of them); the bag converter has no stated ceiling and asks for twice a 32-bit length, in
+// up to two live buffers at once, which must not be mistaken for a crash: brun raises the cap.
+var casesASGiB uint64 = 12
+
 func runCases(casesPath string, n int, dirv string, workersv int) []*houtcome {
 	dir, workers := &dirv, &workersv
 	self, _ := os.Executable()
@@ -523,7 +532,7 @@ func runCases(casesPath string, n int, dirv string, workersv int) []*houtcome {
 			os.Remove(of)
 			next := from
 			for next < to {
-				cmd := exec.Command(self, "hostile-worker", "-cases", casesPath, "-from", fmt.Sprint(next), "-to", fmt.Sprint(to), "-out", of)
+				cmd := exec.Command(self, "hostile-worker", "-cases", casesPath, "-from", fmt.Sprint(next), "-to", fmt.Sprint(to), "-out", of, "-as", fmt.Sprint(casesASGiB))
 				var stderr bytes.Buffer
 				cmd.Stderr = &stderr
 				err := cmd.Run()
@@ -627,7 +636,7 @@ func runCases(casesPath string, n int, dirv string, workersv int) []*houtcome {
 			defer func() { <-sem }()
 			of := fmt.Sprintf("%s/confirm-%d.txt", *dir, i)
 			os.Remove(of)
-			cmd := exec.Command(self, "hostile-worker", "-cases", casesPath, "-from", fmt.Sprint(i), "-to", fmt.Sprint(i+1), "-out", of, "-deadline", "120s")
+			cmd := exec.Command(self, "hostile-worker", "-cases", casesPath, "-from", fmt.Sprint(i), "-to", fmt.Sprint(i+1), "-out", of, "-deadline", "120s", "-as", fmt.Sprint(casesASGiB))
 			err := cmd.Run()
 			b, _ := os.ReadFile(of)
 			if err == nil {
